@@ -8,12 +8,15 @@
 (T) CrdtTrace: every probe of every replica must list, per key, the value of the update with
     the greatest timestamp among those it has seen - for all three maps.
 """
+import random
+
 import vlib
 from checks import crdtlib
 
 
 def check(run):
     thorough = run.tier == "thorough"
+    rng = random.Random(run.seed)
     run.model_check("MC_Crdt", "MC_Crdt_c08.cfg" if not thorough else "MC_Crdt.cfg")
     scns = []
     for mp in ("sess", "subs", "ret"):
@@ -24,11 +27,13 @@ def check(run):
             s["ops"] = s["ops"] + [{"op": "permute", "max": 3}]
         # local writes interleaved with deliveries (a later local write may be behind a merged remote one)
         b = crdtlib.gen(run, "mix", mp, [1, 2, 3], ["k1", "k2"], vals, 4, 7 if thorough else 6, 3, 0, [1, 2, 3], False,
-                        simulate="num=%d" % (1500 if thorough else 30))
+                        simulate="num=%d" % (150 if thorough else 30))
         for s in b:
-            s["ops"] = s["ops"] + [{"op": "permute", "max": 4 if thorough else 3}]
+            s["ops"] = s["ops"] + [{"op": "permute", "max": 3}]
         if thorough:
             c = crdtlib.gen(run, "loc4", mp, [1, 2, 3], ["k1", "k3"], vals[:1], 4, 4, 0, 0, [1, 3], False)
+            rng.shuffle(c)
+            c = c[:400]
             for s in c:
                 s["ops"] = s["ops"] + [{"op": "permute", "max": 4}]
             a += c
